@@ -451,7 +451,8 @@ def mutate(top, adv, rng, mut, collide=False):
             return top
         d = rng.choice(below)
         ob = own_b(c)
-        d["ch"].append({"k": "str", "id": c["id"]} if ob == [0, 1] and rng.random() < 0.5 else {"k": "var", "id": c["id"], "b": ob})
+        nb = collide_with(ob, rng) if rng.random() < 0.35 else None     # a back reference declared with OTHER bounds that hash like the compound's
+        d["ch"].append({"k": "str", "id": c["id"]} if nb is None and ob == [0, 1] and rng.random() < 0.5 else {"k": "var", "id": c["id"], "b": nb or ob})
         return top
     if mut == "cycle-cross":
         adv.n += 1
